@@ -430,3 +430,15 @@ func (w *World) refersTo(p *packages.Package, e ast.Expr, v *types.Var) bool {
 		return false
 	}
 }
+
+// isDecoderLike: a function or method taking a byte slice (decoders, Parse,
+// Decode* dispatchers, Write of the io-style kinds).
+func (w *World) isDecoderLike(fi *FuncInfo) bool {
+	sig := fi.Obj.Type().(*types.Signature)
+	for i := 0; i < sig.Params().Len(); i++ {
+		if isByteSlice(sig.Params().At(i).Type()) {
+			return true
+		}
+	}
+	return false
+}
